@@ -71,7 +71,11 @@ theorem hunTDSteps_popped : ∀ (as : List Attr) (res : List (Obj × Obj)),
         split
         · exact hnone _ hgone
         · split
-          · exact hnone _ hgone
+          · split
+            · apply hnone
+              rw [hk, dlookup_dictSet_str, if_neg hne]
+              exact hgone
+            · exact hnone _ hgone
           · apply hnone
             rw [hk, dlookup_dictSet_str, if_neg hne]
             exact hgone
@@ -81,7 +85,9 @@ theorem hunTDSteps_popped : ∀ (as : List Attr) (res : List (Obj × Obj)),
       · split
         · exact ih _ hft h1 a hat hpop
         · split
-          · exact ih _ hft h1 a hat hpop
+          · split
+            · exact ih _ hft (dictSet_keys_nodup h1 _ _) a hat hpop
+            · exact ih _ hft h1 a hat hpop
           · exact ih _ hft (dictSet_keys_nodup h1 _ _) a hat hpop
 
 /-- **Every key of the output of the TypedDict unstructure hook**: final keys of handled attributes hold the
@@ -90,7 +96,8 @@ as in the instance; and the output's keys are duplicate-free. -/
 theorem hunTDSteps_keys (hid : ∀ t v, unIsId t = true → un t v = v) (attrs : List Attr)
     (hf : TDFacts hc attrs)
     (hfree : ∀ a ∈ attrs, tdIncluded hc a = true → ∀ r, (ovOf hc a).rename = some r → dlookup inst (.str r) = none)
-    (hnd : nodupPy (keysOf inst) = true) :
+    (hnd : nodupPy (keysOf inst) = true)
+    (hreq : ∀ a ∈ attrs, tdIncluded hc a = true → a.required = true → (dlookup inst (.str a.name)).isSome = true) :
     (∀ a ∈ attrs, tdIncluded hc a = true →
       dlookup (hunTDSteps un unIsId hc inst attrs inst) (.str (tdKey hc a))
         = (dlookup inst (.str a.name)).map (attrUn un (ovOf hc a) a)) ∧
@@ -99,10 +106,42 @@ theorem hunTDSteps_keys (hid : ∀ t v, unIsId t = true → un t v = v) (attrs :
     (∀ k : Obj, (∀ a ∈ attrs, k ≠ .str a.name ∧ (tdIncluded hc a = true → k ≠ .str (tdKey hc a))) →
       dlookup (hunTDSteps un unIsId hc inst attrs inst) k = dlookup inst k) ∧
     nodupPy (keysOf (hunTDSteps un unIsId hc inst attrs inst)) = true :=
-  ⟨hunTDSteps_main un unIsId hc inst hid attrs inst hf (fun _ _ => rfl) hfree,
+  ⟨hunTDSteps_main un unIsId hc inst hid attrs inst hf (fun _ _ => rfl) hfree hreq,
    hunTDSteps_popped un unIsId hc inst attrs inst hf hnd,
    fun k hk => hunTDSteps_frame_obj un unIsId hc inst k attrs inst hk,
    hunTDSteps_nodup un unIsId hc inst attrs inst hnd⟩
+
+/-- **`KeyError`**: a handled required key whose assignment line is emitted (its hook is not the identity, or it is
+renamed) and which is absent from the instance: `instance['a']` raises -- the marker sits under its final key. -/
+theorem hunTDSteps_keyerror (a : Attr) (hi : tdIncluded hc a = true) (hreq : a.required = true)
+    (habs : dlookup inst (.str a.name) = none)
+    (hline : ((ovOf hc a).uh.isNone && unIsId a.ty && (ovOf hc a).rename.isNone) = false) :
+    ∀ (as : List Attr) (res : List (Obj × Obj)), TDFacts hc as → a ∈ as →
+      dlookup (hunTDSteps un unIsId hc inst as res) (.str (tdKey hc a)) = some keyErrMark := by
+  intro as
+  induction as with
+  | nil => intro res _ ha; cases ha
+  | cons b as ih =>
+    intro res hf ha
+    have hft := hf.tail
+    rcases List.mem_cons.mp ha with hab | hat
+    · subst hab
+      have hom : ((ovOf hc a).omitted == some true) = false := by simpa [tdIncluded] using hi
+      simp only [hunTDSteps, hom, Bool.false_eq_true, if_false, hline, habs, hreq, if_true]
+      rw [hunTDSteps_frame un unIsId hc inst (tdKey hc a) as _
+        (fun c hc' => ⟨fun e => hf.key_ne_name (List.mem_cons_self ..) (List.mem_cons_of_mem _ hc') hi (hf.name_ne c hc').symm e.symm,
+          fun hic => hf.key_ne hi c hc' hic⟩)]
+      exact dlookup_dictSet_same _ _ _
+    · simp only [hunTDSteps]
+      split
+      · exact ih _ hft hat
+      · split
+        · exact ih _ hft hat
+        · split
+          · split
+            · exact ih _ hft hat
+            · exact ih _ hft hat
+          · exact ih _ hft hat
 
 theorem mem_tdAllowed {attrs : List Attr} {a : Attr} (ha : a ∈ attrs) (hi : tdIncluded hc a = true) :
     Obj.str (tdKey hc a) ∈ tdAllowed hc attrs := by
